@@ -91,6 +91,14 @@ Proof. apply bytes_copy_nat. Qed.
 Lemma bytes_sub l a b : bytes l -> bytes (sub l a b).
 Proof. intros H. unfold sub. apply bytes_firstn, bytes_skipn, H. Qed.
 
+Lemma len_stale g i n : len (stale g i n) = n.
+Proof. unfold len, stale. rewrite map_length, seq_length. lia. Qed.
+Lemma bytes_stale g i n : bytes (stale g i n).
+Proof.
+  unfold bytes, stale. apply Forall_forall. intros x Hx. apply in_map_iff in Hx.
+  destruct Hx as (j & <- & _). unfold stale_byte. lia.
+Qed.
+
 Lemma bytes_zeros n : bytes (zeros n).
 Proof. unfold bytes, zeros. apply Forall_forall. intros x Hx. apply repeat_spec in Hx. lia. Qed.
 
@@ -316,7 +324,7 @@ Proof.
 Qed.
 
 Section Segment.
-  Variables (v6 tcp : bool) (p : list N) (cs hl gso co fl : N).
+  Variables (v6 tcp : bool) (p : list N) (cs hl gso co fl gseed : N).
 
   Definition gt_of : N :=
     if tcp then (if v6 then VIRTIO_NET_HDR_GSO_TCPV6 else VIRTIO_NET_HDR_GSO_TCPV4)
@@ -403,7 +411,7 @@ Section Segment.
               /\ dlen = N.min gso (len p - dataAt).
   Proof. unfold T, dlen, segEnd. rewrite len_inp. lia. Qed.
 
-  Let o1 := copy_at (zeros T) 0 (sub inp 0 cs).
+  Let o1 := copy_at (stale gseed i T) 0 (sub inp 0 cs).
   Let o4 := seg_ipmod v6 cs i T o1.
   Let o5 := copy_at o4 cs (sub inp cs hl).
   Let o7 := seg_trmod tcp cs hl gso i dlen (firstTCPSeqNum p hdr_of v6) (negb (segEnd =? len inp)) o5.
@@ -416,13 +424,13 @@ Section Segment.
   Let tcsum := if tcp then tcsum0 else mangle0 tcsum0.
   Let S := set16 o8 fld tcsum.
 
-  Lemma segment_eq : segment p hdr_of v6 i dataAt = S.
+  Lemma segment_eq : segment p hdr_of v6 gseed i dataAt = S.
   Proof.
     unfold S, tcsum, tcsum0, pseudo, o8, o7, o5, o4, o1, T, dlen, segEnd, inp, seg_ipmod, seg_trmod, segment.
     rewrite <- csum_at. rewrite is_tcp_of. cbn [v_csumStart v_hdrLen v_gsoSize]. reflexivity.
   Qed.
 
-  Lemma len_o1 : len o1 = T. Proof. unfold o1. now rewrite len_copy_at, len_zeros. Qed.
+  Lemma len_o1 : len o1 = T. Proof. unfold o1. now rewrite len_copy_at, len_stale. Qed.
   Lemma len_o4 : len o4 = T. Proof. unfold o4. now rewrite len_ipmod, len_o1. Qed.
   Lemma len_o5 : len o5 = T. Proof. unfold o5. now rewrite len_copy_at, len_o4. Qed.
   Lemma len_o7 : len o7 = T. Proof. unfold o7. now rewrite len_trmod, len_o5. Qed.
@@ -440,7 +448,7 @@ Section Segment.
   Lemma o1_ip k : k < cs -> get8 o1 k = get8 inp k.
   Proof.
     intros Hk. pose proof Edl. pose proof Ehl. unfold o1.
-    rewrite get8_copy_at_in by (rewrite ?len_iph, ?len_zeros; unfold T; lia).
+    rewrite get8_copy_at_in by (rewrite ?len_iph, ?len_stale; unfold T; lia).
     rewrite get8_sub_in by lia. f_equal. lia.
   Qed.
 
@@ -714,7 +722,7 @@ Section Segment.
   (* ---------------- checksums ---------------- *)
 
   Lemma bytes_o1 : bytes o1.
-  Proof. unfold o1. apply bytes_copy_at; [apply bytes_zeros|apply bytes_sub, bytes_inp]. Qed.
+  Proof. unfold o1. apply bytes_copy_at; [apply bytes_stale|apply bytes_sub, bytes_inp]. Qed.
   Lemma bytes_o5 : bytes o5.
   Proof.
     unfold o5. apply bytes_copy_at; [|apply bytes_sub, bytes_inp].
@@ -856,7 +864,7 @@ Section Segment.
     c_tcp_seq sp j s = true /\ c_tcp_flags sp j s = true /\ c_th_rest sp s = true /\
     c_udp_len sp j s = true /\ c_transport_csum sp s = true /\ c_udp_csum_nonzero sp s = true.
 
-  Theorem segment_good : seg_good sp_of i (segment p hdr_of v6 i dataAt).
+  Theorem segment_good : seg_good sp_of i (segment p hdr_of v6 gseed i dataAt).
   Proof.
     rewrite segment_eq. unfold seg_good.
     pose proof seg_c_len. pose proof seg_c_payload. pose proof seg_c_ip_len. pose proof seg_c_ip_id.
@@ -871,7 +879,7 @@ End Segment.
 (* ------------------------------------------------------------------ *)
 
 Section Loop.
-  Variables (v6 tcp : bool) (p : list N) (cs hl gso co fl nbufs : N).
+  Variables (v6 tcp : bool) (p : list N) (cs hl gso co fl nbufs gseed : N).
   Let sp := sp_of v6 tcp p cs hl gso co.
   Let hdr := hdr_of v6 tcp cs hl gso co fl.
   Hypothesis Hb : bytes p.
@@ -884,7 +892,7 @@ Section Loop.
 
   Lemma split_loop_spec : forall fuel i,
     i <= nbufs -> (N.to_nat (nbufs - i) < fuel)%nat ->
-    let '(n, e, segs) := split_loop p hdr nbufs v6 fuel i (hl + i * gso) in
+    let '(n, e, segs) := split_loop p hdr nbufs v6 gseed fuel i (hl + i * gso) in
     (forall j s, nth_error segs j = Some s -> seg_good sp (i + N.of_nat j) s) /\
     (nseg sp <= nbufs -> e = E_none /\ n = N.max i (nseg sp) /\ N.of_nat (length segs) = N.max i (nseg sp) - i) /\
     (nbufs < nseg sp -> i <= nseg sp -> e = E_too_many /\ n = nbufs - 1 /\ N.of_nat (length segs) = nbufs - i).
@@ -899,11 +907,11 @@ Section Loop.
         intros _ _. cbn [length]. lia.
       + replace (hl + i * gso + gso) with (hl + (i + 1) * gso) by lia.
         specialize (IH (i + 1) ltac:(lia) ltac:(lia)). fold hdr.
-        destruct (split_loop p hdr nbufs v6 fuel (i + 1) (hl + (i + 1) * gso)) as [[n e] segs].
+        destruct (split_loop p hdr nbufs v6 gseed fuel (i + 1) (hl + (i + 1) * gso)) as [[n e] segs].
         destruct IH as (I1 & I2 & I3). split; [|split].
         * intros [|j] s Hs; cbn [nth_error] in Hs.
           -- inversion Hs; subst s. rewrite N.add_0_r.
-             apply (segment_good v6 tcp p cs hl gso co fl Hb HL Hhl Hg Hcs Hver Htr i (hl + i * gso)); lia.
+             apply (segment_good v6 tcp p cs hl gso co fl gseed Hb HL Hhl Hg Hcs Hver Htr i (hl + i * gso)); lia.
           -- replace (i + N.of_nat (S j)) with (i + 1 + N.of_nat j) by lia. apply I1, Hs.
         * intros Hle. destruct (I2 Hle) as (-> & -> & Hlen). cbn [length]. lia.
         * intros Hgt _. destruct (I3 Hgt ltac:(lia)) as (-> & -> & Hlen). cbn [length]. lia.
@@ -916,7 +924,7 @@ Section Loop.
   (* gsoSplit on a well-formed super-packet *)
   Theorem gso_split_spec : 1 <= nbufs ->
     exists n e segs,
-      gso_split p hdr nbufs v6 = Done n e segs /\
+      gso_split p hdr nbufs v6 gseed = Done n e segs /\
       (forall j s, nth_error segs j = Some s -> seg_good sp (N.of_nat j) s) /\
       (nseg sp <= nbufs -> e = E_none /\ n = nseg sp /\ N.of_nat (length segs) = nseg sp) /\
       (nbufs < nseg sp -> e = E_too_many /\ n = nbufs - 1 /\ N.of_nat (length segs) = nbufs).
@@ -932,7 +940,7 @@ Section Loop.
     rewrite H20.
     pose proof (split_loop_spec (S (N.to_nat nbufs)) 0 ltac:(lia) ltac:(lia)) as H.
     rewrite N.mul_0_l, N.add_0_r in H. unfold hdr at 2. cbn [hdr_of v_hdrLen]. fold hdr.
-    destruct (split_loop p hdr nbufs v6 (S (N.to_nat nbufs)) 0 hl) as [[n e] segs].
+    destruct (split_loop p hdr nbufs v6 gseed (S (N.to_nat nbufs)) 0 hl) as [[n e] segs].
     destruct H as (I1 & I2 & I3). exists n, e, segs. split; [reflexivity|]. split; [|split].
     - intros j s Hs. specialize (I1 j s Hs). now rewrite N.add_0_l in I1.
     - intros Hle. destruct (I2 Hle) as (? & ? & ?). repeat split; lia.
@@ -971,16 +979,16 @@ Definition hdr_for (sp : super) (fl : N) : vhdr :=
 
 (* gsoSplit on every well-formed super-packet: the number of packets, the error, and every
    clause of the specification except the zero-UDP-checksum one for every written segment *)
-Theorem gso_split_wf sp fl nbufs : wf_super sp -> 1 <= nbufs ->
+Theorem gso_split_wf sp fl nbufs gseed : wf_super sp -> 1 <= nbufs ->
   exists n e segs,
-    gso_split (s_pkt sp) (hdr_for sp fl) nbufs (s_v6 sp) = Done n e segs /\
+    gso_split (s_pkt sp) (hdr_for sp fl) nbufs (s_v6 sp) gseed = Done n e segs /\
     (forall j s, nth_error segs j = Some s -> seg_good sp (N.of_nat j) s) /\
     (nseg sp <= nbufs -> e = E_none /\ n = nseg sp /\ N.of_nat (length segs) = nseg sp) /\
     (nbufs < nseg sp -> e = E_too_many /\ n = nbufs - 1 /\ N.of_nat (length segs) = nbufs).
 Proof.
   intros Hwf Hnb. destruct (wf_facts sp Hwf) as (Hb & HL & Hhl & Hg & Hcs & Hver & Htr).
   destruct sp as [v6 tcp p cs hl gso co]. cbn [s_v6 s_tcp s_pkt s_cs s_hl s_gso s_co] in *.
-  exact (gso_split_spec v6 tcp p cs hl gso co fl nbufs Hb HL Hhl Hg Hcs Hver Htr Hnb).
+  exact (gso_split_spec v6 tcp p cs hl gso co fl nbufs gseed Hb HL Hhl Hg Hcs Hver Htr Hnb).
 Qed.
 
 (* ------------------------------------------------------------------ *)
@@ -1073,9 +1081,9 @@ Definition super_of (hdr : vhdr) (inp : list N) : option super :=
 Lemma parse_super_decode raw : parse_super raw = super_of (decode raw) (sub raw 10 (len raw)).
 Proof. reflexivity. Qed.
 
-Lemma handle_hdr_wf hdr inp nbufs room sp :
+Lemma handle_hdr_wf hdr inp nbufs room gseed sp :
   super_of hdr inp = Some sp -> wf_super sp ->
-  handle_hdr hdr inp nbufs room = gso_split inp (hdr_for sp (v_flags hdr)) nbufs (s_v6 sp).
+  handle_hdr hdr inp nbufs room gseed = gso_split inp (hdr_for sp (v_flags hdr)) nbufs (s_v6 sp) gseed.
 Proof.
   destruct hdr as [fl gt hl0 gso cs co]. unfold super_of. cbn [v_gsoType v_csumStart v_gsoSize v_csumOffset v_flags].
   intros Hp Hwf.
@@ -1139,9 +1147,9 @@ Proof.
     destruct (N.leb_spec (len inp) (cs + co + 1)); [lia|]. reflexivity.
 Qed.
 
-Theorem handle_virtio_read_wf raw nbufs room sp :
+Theorem handle_virtio_read_wf raw nbufs room gseed sp :
   parse_super raw = Some sp -> wf_super sp ->
-  handle_virtio_read raw nbufs room = gso_split (s_pkt sp) (hdr_for sp (get8 raw 0)) nbufs (s_v6 sp).
+  handle_virtio_read raw nbufs room gseed = gso_split (s_pkt sp) (hdr_for sp (get8 raw 0)) nbufs (s_v6 sp) gseed.
 Proof.
   intros Hp Hwf. rewrite parse_super_decode in Hp.
   assert (Hs : s_pkt sp = sub raw 10 (len raw)).
@@ -1153,34 +1161,34 @@ Proof.
   assert (28 <= len (s_pkt sp)) by (destruct (s_v6 sp), (s_tcp sp); lia).
   rewrite Hs, len_sub_gen in H.
   destruct (N.ltb_spec (len raw) 10); [lia|].
-  rewrite (handle_hdr_wf _ _ nbufs room sp Hp Hwf). rewrite Hs. reflexivity.
+  rewrite (handle_hdr_wf _ _ nbufs room gseed sp Hp Hwf). rewrite Hs. reflexivity.
 Qed.
 
 (* the result of handleVirtioRead on a well-formed super-packet *)
-Theorem handle_wf_result raw nbufs room sp n e segs :
+Theorem handle_wf_result raw nbufs room gseed sp n e segs :
   parse_super raw = Some sp -> wf_super sp -> 1 <= nbufs ->
-  handle_virtio_read raw nbufs room = Done n e segs ->
+  handle_virtio_read raw nbufs room gseed = Done n e segs ->
   (forall j s, nth_error segs j = Some s -> seg_good sp (N.of_nat j) s) /\
   (nseg sp <= nbufs -> e = E_none /\ n = nseg sp /\ N.of_nat (length segs) = nseg sp) /\
   (nbufs < nseg sp -> e = E_too_many /\ n = nbufs - 1 /\ N.of_nat (length segs) = nbufs).
 Proof.
-  intros Hp Hwf Hnb Hr. rewrite (handle_virtio_read_wf raw nbufs room sp Hp Hwf) in Hr.
-  destruct (gso_split_wf sp (get8 raw 0) nbufs Hwf Hnb) as (n' & e' & segs' & Hs & H1 & H2 & H3).
+  intros Hp Hwf Hnb Hr. rewrite (handle_virtio_read_wf raw nbufs room gseed sp Hp Hwf) in Hr.
+  destruct (gso_split_wf sp (get8 raw 0) nbufs gseed Hwf Hnb) as (n' & e' & segs' & Hs & H1 & H2 & H3).
   rewrite Hs in Hr. inversion Hr; subst n' e' segs'. auto.
 Qed.
 
-Theorem handle_never_panics_wf raw nbufs room sp :
+Theorem handle_never_panics_wf raw nbufs room gseed sp :
   parse_super raw = Some sp -> wf_super sp -> 1 <= nbufs ->
-  exists n e segs, handle_virtio_read raw nbufs room = Done n e segs.
+  exists n e segs, handle_virtio_read raw nbufs room gseed = Done n e segs.
 Proof.
-  intros Hp Hwf Hnb. rewrite (handle_virtio_read_wf raw nbufs room sp Hp Hwf).
-  destruct (gso_split_wf sp (get8 raw 0) nbufs Hwf Hnb) as (n & e & segs & Hs & _). eauto.
+  intros Hp Hwf Hnb. rewrite (handle_virtio_read_wf raw nbufs room gseed sp Hp Hwf).
+  destruct (gso_split_wf sp (get8 raw 0) nbufs gseed Hwf Hnb) as (n & e & segs & Hs & _). eauto.
 Qed.
 
 (* checksum completion through handleVirtioRead *)
-Theorem handle_partial_wf raw nbufs room pp :
+Theorem handle_partial_wf raw nbufs room gseed pp :
   parse_partial raw = Some pp -> wf_partial pp -> 10 <= len raw -> len (p_pkt pp) <= room ->
-  exists out, handle_virtio_read raw nbufs room = Done 1 E_none [out] /\ partial_good pp out.
+  exists out, handle_virtio_read raw nbufs room gseed = Done 1 E_none [out] /\ partial_good pp out.
 Proof.
   unfold parse_partial. intros Hp Hwf Hl Hroom.
   destruct (N.eqb_spec (get8 raw 1) 0) as [G0|]; [|discriminate]. cbn [andb] in Hp.
@@ -1268,7 +1276,7 @@ Definition udp_zero_witness (raw : list N) (seg : nat) : bool :=
   match parse_super raw with
   | Some sp =>
       wf_superb sp &&
-      match handle_virtio_read raw 8 65535 with
+      match handle_virtio_read raw 8 65535 77 with
       | Done _ _ segs =>
           match nth_error segs seg with
           | Some s => c_udp_csum_nonzero sp s && (get16 s (s_cs sp + 6) =? 65535) && (seg_check sp (N.of_nat seg) s =? 0)
@@ -1295,7 +1303,7 @@ Definition udp_zero_none_witness (raw : list N) : bool :=
   match parse_partial raw with
   | Some pp =>
       wf_partialb pp &&
-      match handle_virtio_read raw 1 65535 with
+      match handle_virtio_read raw 1 65535 77 with
       | Done 1 0 [o] => (partial_check pp o =? 0) && (get16 o (p_cs pp + p_co pp) =? 65535)
       | _ => false
       end
@@ -1321,7 +1329,7 @@ Definition exthdr_witness (raw : list N) : bool :=
   match parse_super raw with
   | Some sp =>
       s_v6 sp && s_tcp sp && (s_cs sp =? 48) && (get8 (s_pkt sp) 6 =? 0) && (get8 (s_pkt sp) 40 =? 6) &&
-      match handle_virtio_read raw 8 65535 with
+      match handle_virtio_read raw 8 65535 77 with
       | Done 3 0 (s :: _) => (len s =? 168) && (get16 s 4 =? 120) && negb (c_ip_len sp s)
       | _ => false
       end
@@ -1348,7 +1356,7 @@ Proof. exists 1, 65536. vm_compute. discriminate. Qed.
    buffers for three segments the too-many-segments result satisfies it as well *)
 Definition nonvac_raw : list N := set8 f6_raw 188 (N.lxor (get8 f6_raw 188) 1).
 Definition spec_on_model (raw : list N) (nbufs : N) : option (N * N) :=
-  match parse_super raw, handle_virtio_read raw nbufs 65535 with
+  match parse_super raw, handle_virtio_read raw nbufs 65535 77 with
   | Some sp, Done n e segs => if wf_superb sp then holds_super sp nbufs n e segs else Some (0, 99)
   | _, _ => Some (0, 98)
   end.
@@ -1372,7 +1380,7 @@ Definition old_udp_zero_witness (raw : list N) (seg : nat) : bool :=
   match parse_super raw with
   | Some sp =>
       wf_superb sp &&
-      match handle_virtio_read raw 8 65535 with
+      match handle_virtio_read raw 8 65535 77 with
       | Done _ _ segs =>
           match nth_error segs seg with
           | Some s => (old_transport_csum sp s =? 0) && (get16 s (s_cs sp + 6) =? 65535) &&
@@ -1397,7 +1405,7 @@ Definition old_udp_zero_none_witness (raw : list N) : bool :=
   match parse_partial raw with
   | Some pp =>
       wf_partialb pp &&
-      match handle_virtio_read raw 1 65535 with
+      match handle_virtio_read raw 1 65535 77 with
       | Done 1 0 [o] => (old_partial_csum pp o =? 0) &&
                         (partial_check pp (set16 o (p_cs pp + p_co pp) (old_partial_csum pp o)) =? 34)
       | _ => false
